@@ -2,7 +2,9 @@ package c09
 
 import (
 	"bytes"
+	"encoding/hex"
 	"fmt"
+	"net/http"
 	"sort"
 	"strings"
 
@@ -65,6 +67,94 @@ func renderFiles(files []registry.File) string {
 	return strings.Join(out, ",")
 }
 
+// fsOver lists tarfs over the bytes.
+func fsOver(b []byte) (string, error) {
+	sys, err := tarfs.New(bytes.NewReader(b))
+	if err != nil {
+		return "", err
+	}
+	return listSys(sys)
+}
+
+// complaints lists what is wrong with realizing the layer, had the response
+// "cand" been the one the layer was made from. Empty: nothing.
+func (w *world) complaints(l *layer, cand *registry.Response, mt, view string, body []byte, got *claircore.Layer, key string) []string {
+	var out []string
+	bad := func(what string) { out = append(out, what) }
+	delivered, term := cand.DeliveredTo(http.MethodGet, http.Header(l.headers))
+	if cand.RefuseConn {
+		bad("realized-although-the-request-failed")
+		return out
+	}
+	if statusOf(cand) != 200 {
+		bad(fmt.Sprintf("accepted-status-%d", statusOf(cand)))
+	}
+	if term != registry.TermEOF {
+		bad("accepted-a-response-that-did-not-end-cleanly(" + term.String() + ")")
+	}
+	algo, want, ok := parseDigestSpec(key)
+	if !ok {
+		bad("accepted-a-malformed-digest")
+	} else if !bytes.Equal(hashOf(algo, delivered), want) {
+		bad("accepted-bytes-that-do-not-hash-to-the-digest")
+	}
+	magic := magicKind(delivered)
+	if magic == registry.Bzip2 {
+		bad("accepted-unsupported-compression-bzip2")
+	}
+	ct := cand.Header.Get("Content-Type")
+	switch d := declaredKind(ct); d {
+	case "generic":
+	case "unknown":
+		bad("accepted-unsupported-content-type")
+	default:
+		if d != magic {
+			bad("accepted-content-type-" + d + "-for-" + magic + "-body")
+		}
+	}
+	switch {
+	case mt == fsMediaType:
+		if view != "d" {
+			bad("filesystem-media-type-with-a-reader")
+		}
+		return out
+	case !isTarMediaType(mt):
+		bad("accepted-unknown-media-type")
+		return out
+	}
+	// payload exactness
+	expected := delivered
+	if magic == registry.Gzip || magic == registry.Zstd {
+		dec, ok := decode(magic, delivered, term)
+		if !ok {
+			bad("accepted-an-undecodable-" + magic + "-body")
+			return out
+		}
+		expected = dec
+	}
+	if l.limited && len(expected) > l.disk {
+		bad(fmt.Sprintf("realized-%d-bytes-although-the-spool-file-takes-%d", len(expected), l.disk))
+	}
+	if view != viewOf(expected) || !bytes.Equal(body, expected) {
+		bad(fmt.Sprintf("layer-reader-shows-%s-expected-%s", view, viewOf(expected)))
+		return out
+	}
+	// the FS view is tarfs over exactly those bytes
+	gotFS, err := listFS(got)
+	if err != nil {
+		bad("layer-fs-unreadable:" + err.Error())
+		return out
+	}
+	if l.files != nil && bytes.Equal(expected, l.payload) {
+		if want := renderFiles(l.files); gotFS != want {
+			bad("layer-fs-differs-from-generated-files got=" + clip(gotFS, 200) + " want=" + clip(want, 200))
+		}
+	} else if want, err := fsOver(expected); err == nil && want != gotFS {
+		bad("layer-fs-differs-from-tarfs-over-the-expected-bytes")
+	}
+	return out
+}
+
 func (w *world) oracleSucceeded(ls []*layer, got []*claircore.Layer, views []string, bodies [][]byte) {
 	inCall := map[string]string{}
 	for i, l := range ls {
@@ -74,10 +164,14 @@ func (w *world) oracleSucceeded(ls []*layer, got []*claircore.Layer, views []str
 			mt = tarMediaTypes[0]
 		}
 		w.r.Case("oracle "+views[i]+" "+l.damage+" "+l.comp, true)
+		w.checkLayerFields(l, got[i], key)
 		if h := w.held[key]; h != nil {
 			w.r.Count("served:arena")
 			if isTarMediaType(mt) && strings.HasPrefix(h.view, "t:") && views[i] != h.view {
 				w.r.Fail("", fmt.Sprintf("arena-served-content-differs held=%s got=%s: %s", h.view, views[i], l.describe()))
+			}
+			if n := w.be.Hits(l.path); n != 0 {
+				w.r.Count("arena-hit-with-request")
 			}
 			continue
 		}
@@ -90,83 +184,74 @@ func (w *world) oracleSucceeded(ls []*layer, got []*claircore.Layer, views []str
 		}
 		inCall[key] = views[i]
 		w.r.Count("served:fetch")
-		delivered, term := l.script.Delivered()
-		bad := func(what string) {
-			w.r.Fail("", what+": "+l.describe())
-		}
 		if l.uriKind != 'g' {
-			bad("realized-without-a-usable-uri")
+			w.r.Fail("", "realized-without-a-usable-uri: "+l.describe())
 			continue
 		}
-		if l.script.RefuseConn {
-			bad("realized-although-the-request-failed")
+		if _, loops := l.final(); loops {
+			w.r.Fail("", "realized-although-the-redirects-never-end: "+l.describe())
 			continue
 		}
-		if statusOf(l.script) != 200 {
-			bad(fmt.Sprintf("accepted-status-%d", statusOf(l.script)))
-		}
-		if term != registry.TermEOF {
-			bad("accepted-a-response-that-did-not-end-cleanly(" + term.String() + ")")
-		}
-		algo, want, ok := parseDigestSpec(key)
-		if !ok {
-			bad("accepted-a-malformed-digest")
-		} else if !bytes.Equal(hashOf(algo, delivered), want) {
-			bad("accepted-bytes-that-do-not-hash-to-the-digest")
-		}
-		magic := magicKind(delivered)
-		if magic == registry.Bzip2 {
-			bad("accepted-unsupported-compression-bzip2")
-		}
-		ct := l.script.Header.Get("Content-Type")
-		switch d := declaredKind(ct); d {
-		case "generic":
-		case "unknown":
-			bad("accepted-unsupported-content-type")
-		default:
-			if d != magic {
-				bad("accepted-content-type-" + d + "-for-" + magic + "-body")
+		// The layer must be explained by one of the responses a request for it
+		// could get: normally the first; a later one only if the fetcher asked again.
+		var best []string
+		for k, cand := range l.candidates() {
+			c := w.complaints(l, cand, mt, views[i], bodies[i], got[i], key)
+			if k > 0 && len(c) > 0 {
+				for j := range c {
+					c[j] += fmt.Sprintf("(judged-by-response-%d)", k+1)
+				}
+			}
+			if k == 0 || len(c) < len(best) {
+				best = c
+			}
+			if len(c) == 0 {
+				break
 			}
 		}
-		switch {
-		case mt == fsMediaType:
-			if views[i] != "d" {
-				bad("filesystem-media-type-with-a-reader")
-			}
-			continue
-		case !isTarMediaType(mt):
-			bad("accepted-unknown-media-type")
-			continue
+		for _, c := range best {
+			w.r.Fail("", c+": "+l.describe())
 		}
-		// payload exactness
-		expected := delivered
-		if magic == registry.Gzip || magic == registry.Zstd {
-			out, ok := decode(magic, delivered, term)
-			if !ok {
-				bad("accepted-an-undecodable-" + magic + "-body")
-				continue
-			}
-			expected = out
+		w.checkRequestHeaders(l)
+	}
+}
+
+// checkLayerFields: Layer.Init copies the description into the Layer.
+func (w *world) checkLayerFields(l *layer, got *claircore.Layer, key string) {
+	if algo, sum, ok := parseDigestSpec(key); ok {
+		want := algo + ":" + hex.EncodeToString(sum)
+		if got.Hash.String() != want || got.Hash.Algorithm() != algo || !bytes.Equal(got.Hash.Checksum(), sum) {
+			w.r.Fail("", fmt.Sprintf("layer-hash-%q-is-not-the-described-digest: %s", got.Hash.String(), l.describe()))
 		}
-		if views[i] != viewOf(expected) || !bytes.Equal(bodies[i], expected) {
-			bad(fmt.Sprintf("layer-reader-shows-%s-expected-%s", views[i], viewOf(expected)))
-			continue
+	}
+	if l.api == "new" {
+		if len(got.Headers) != len(l.headers) {
+			w.r.Fail("", "layer-headers-differ-from-the-description: "+l.describe())
 		}
-		// the FS view is tarfs over exactly those bytes
-		gotFS, err := listFS(got[i])
-		if err != nil {
-			bad("layer-fs-unreadable:" + err.Error())
-			continue
-		}
-		if l.files != nil && bytes.Equal(expected, l.payload) {
-			if want := renderFiles(l.files); gotFS != want {
-				bad("layer-fs-differs-from-generated-files got=" + clip(gotFS, 200) + " want=" + clip(want, 200))
-			}
-		} else if sys, err := tarfs.New(bytes.NewReader(expected)); err == nil {
-			if want, err := listSys(sys); err == nil && want != gotFS {
-				bad("layer-fs-differs-from-tarfs-over-the-expected-bytes")
+		for k, v := range l.headers {
+			if strings.Join(got.Headers[k], "\x00") != strings.Join(v, "\x00") {
+				w.r.Fail("", "layer-headers-differ-from-the-description: "+l.describe())
 			}
 		}
+	}
+}
+
+// checkRequestHeaders: the request for the layer carried the description's headers.
+func (w *world) checkRequestHeaders(l *layer) {
+	rs := w.be.Requests(l.path)
+	if len(rs) == 0 {
+		return
+	}
+	if rs[0].Method != http.MethodGet {
+		w.r.Fail("", "layer-requested-with-method-"+rs[0].Method+": "+l.describe())
+	}
+	for k, v := range l.headers {
+		if strings.Join(rs[0].Header.Values(k), "\x00") != strings.Join(v, "\x00") {
+			w.r.Fail("", fmt.Sprintf("request-header-%s-not-sent-as-described: %s", k, l.describe()))
+		}
+	}
+	if len(l.headers) > 0 {
+		w.r.Count("request-headers:propagated")
 	}
 }
 
